@@ -46,6 +46,32 @@ def _containers() -> dict[str, Any]:
     return out
 
 
+def _instances() -> dict[str, str]:
+    """State of objects bound at module level whose class liquid2 defines (a shared parser,
+    a registry object, ...): their attributes, one level deep."""
+    out: dict[str, str] = {}
+    for name, mod in list(sys.modules.items()):
+        if mod is None or not (name == "liquid2" or name.startswith("liquid2.")):
+            continue
+        for k, v in list(vars(mod).items()):
+            if k.startswith("__") or isinstance(v, (type, dict, list, set, str, bytes, int, float, tuple, frozenset)) \
+                    or callable(v) or type(v).__module__.split(".")[0] not in ("liquid2",):
+                continue
+            if k == "DEFAULT_ENVIRONMENT" or type(v).__name__ in ("module",):
+                continue
+            try:
+                attrs = dict(vars(v)) if hasattr(v, "__dict__") else {}
+                for sl in getattr(type(v), "__slots__", ()) or ():
+                    if isinstance(sl, str) and hasattr(v, sl):
+                        attrs[sl] = getattr(v, sl)
+            except Exception:  # noqa: BLE001
+                continue
+            if attrs:
+                out[f"{name}.{k}<{type(v).__name__}>"] = "{" + ", ".join(
+                    f"{a}={_short(x)[:80]}" for a, x in sorted(attrs.items()) if not a.startswith("__")) + "}"
+    return out
+
+
 def _caches() -> dict[str, int]:
     out: dict[str, int] = {}
     for name, mod in list(sys.modules.items()):
@@ -108,11 +134,12 @@ def _restore_interpreter(name: str, old: dict[str, str]) -> None:
 class Snapshot:
     def __init__(self) -> None:
         self.interp = _interpreter()
+        self.inst = _instances()
         self.objs = _containers()
         self.saved = {k: (copy.copy(v), _canon(v)) for k, v in self.objs.items()}
         self.caches = _caches()
         self.denv = _default_env()
-        self.names = len(self.objs) + len(self.caches) + 1 + len(self.interp)
+        self.names = len(self.objs) + len(self.caches) + 1 + len(self.interp) + len(self.inst)
 
     def changed(self, restore: bool = True) -> list[str]:
         """Names whose state differs from the snapshot (containers are restored in place)."""
@@ -141,6 +168,10 @@ class Snapshot:
                 if restore:
                     _restore_interpreter(k, self.interp)
                     self.interp[k] = _interpreter().get(k, v)
+        for k, v in _instances().items():
+            if k in self.inst and self.inst[k] != v:
+                out.append(f"{k}: {self.inst[k][:160]} -> {v[:160]}")
+            self.inst[k] = v
         d = _default_env()
         if d != self.denv:
             out.append(f"liquid2.DEFAULT_ENVIRONMENT: {self.denv[:100]} -> {d[:100]}")
